@@ -42,36 +42,6 @@ static __thread uint8_t *mgr_before;
 static __thread uint64_t ud_val[MAXCTX];
 static __thread int started[MAXCTX]; /* a submit on this context has been accepted at least once: its digest is API-defined */
 
-/* a 4 GiB + window of virtual memory that repeats one 1 MiB pattern file (C15) */
-static __thread uint8_t *huge_base;
-static __thread uint32_t huge_pat;
-static uint8_t *
-huge_window(uint32_t b)
-{
-        const size_t W = (size_t) 4 << 30, EXTRA = 2 * PAT_PERIOD;
-        if (huge_base && huge_pat == b)
-                return huge_base;
-        if (huge_base)
-                munmap(huge_base, W + EXTRA);
-        int fd = memfd_create("pat", 0);
-        if (fd < 0)
-                die("memfd_create");
-        uint8_t *tmp = malloc(PAT_PERIOD);
-        pat_fill(tmp, b, 0, PAT_PERIOD);
-        if (write(fd, tmp, PAT_PERIOD) != PAT_PERIOD)
-                die("memfd write");
-        free(tmp);
-        huge_base = mmap(NULL, W + EXTRA, PROT_NONE, MAP_PRIVATE | MAP_ANONYMOUS | MAP_NORESERVE, -1, 0);
-        if (huge_base == MAP_FAILED)
-                die("huge reserve");
-        for (size_t o = 0; o < W + EXTRA; o += PAT_PERIOD)
-                if (mmap(huge_base + o, PAT_PERIOD, PROT_READ, MAP_SHARED | MAP_FIXED, fd, 0) == MAP_FAILED)
-                        die("huge map");
-        close(fd);
-        huge_pat = b;
-        return huge_base;
-}
-
 static int
 ctx_index(void *p)
 {
